@@ -28,6 +28,30 @@ pub fn migchild(opts: &Opts) -> i32 {
     let planted = std::sync::Arc::new(std::sync::atomic::AtomicBool::new(false));
     let stop = std::sync::Arc::new(std::sync::atomic::AtomicBool::new(false));
     const SENTINEL: &[u8] = b"somebody else's file, created while migrate() was running";
+    // touch=1: the source's modification time is bumped (bytes unchanged) once the migration is
+    // working under its temporary name: it may fail with SourceChanged, but then nothing may be
+    // left at the destination
+    let touch = opts.u64("touch", 0) == 1;
+    let toucher = if touch {
+        let (src2, dst2, stop2) = (src.clone(), dst.clone(), stop.clone());
+        Some(std::thread::spawn(move || {
+            let parent = std::path::Path::new(&dst2).parent().unwrap().to_path_buf();
+            let fname = std::path::Path::new(&dst2).file_name().unwrap().to_string_lossy().to_string();
+            let prefix = format!(".{fname}.feox-migrate-");
+            while !stop2.load(std::sync::atomic::Ordering::SeqCst) {
+                let seen = std::fs::read_dir(&parent).map(|d| d.filter_map(|e| e.ok()).any(|e| e.file_name().to_string_lossy().starts_with(&prefix))).unwrap_or(false);
+                if seen {
+                    if let Ok(f) = std::fs::OpenOptions::new().write(true).open(&src2) {
+                        let _ = f.set_modified(std::time::SystemTime::now() + std::time::Duration::from_secs(30));
+                    }
+                    return;
+                }
+                std::thread::yield_now();
+            }
+        }))
+    } else {
+        None
+    };
     let watcher = if plant {
         let (dst2, planted2, stop2) = (dst.clone(), planted.clone(), stop.clone());
         Some(std::thread::spawn(move || {
@@ -53,6 +77,9 @@ pub fn migchild(opts: &Opts) -> i32 {
     let r = std::panic::catch_unwind(|| migrate(MigrationOptions::new(&src, &dst).allow_ambiguous_legacy_recovery(allow)));
     stop.store(true, std::sync::atomic::Ordering::SeqCst);
     if let Some(w) = watcher {
+        let _ = w.join();
+    }
+    if let Some(w) = toucher {
         let _ = w.join();
     }
     if planted.load(std::sync::atomic::Ordering::SeqCst) {
@@ -182,7 +209,8 @@ pub fn run(opts: &Opts) -> i32 {
                     std::fs::write(&dst, b"precious existing destination").unwrap();
                 }
                 let plant = !dst_exists && rng.chance(1, 4);
-                let line = run_child(&["migchild".into(), format!("src={src}"), format!("dst={dst}"), format!("allow={}", allow as u8), format!("plant={}", plant as u8)], 360)
+                let touch = !dst_exists && !plant && rng.chance(1, 4);
+                let line = run_child(&["migchild".into(), format!("src={src}"), format!("dst={dst}"), format!("allow={}", allow as u8), format!("plant={}", plant as u8), format!("touch={}", touch as u8)], 360)
                     .unwrap_or_else(|| "SPAWN-FAILED".into());
                 // a destination that appeared while the migration ran counts as existing
                 let planted = line.contains("planted=1");
@@ -203,7 +231,12 @@ pub fn run(opts: &Opts) -> i32 {
                     verdict = "FAIL destination-is-not-v3".into();
                 }
                 *kinds.entry(format!("{label}=>{}", line.split(' ').take(2).collect::<Vec<_>>().join("-"))).or_default() += 1;
-                out.emit3(&format!("migrate {src} allow={} dstexists={} src={label}", allow as u8, dst_exists as u8), &line, &verdict);
+                if touch && line.starts_with("err other:") {
+                    // the source was touched in time: the outcome is not a function of the image; oracle only
+                    out.emit3(&format!("note migrate-source-touched {src} src={label} {}", line.replace(' ', "_")), "note", &verdict);
+                } else {
+                    out.emit3(&format!("migrate {src} allow={} dstexists={} src={label}", allow as u8, dst_exists as u8), &line, &verdict);
+                }
                 let _ = std::fs::remove_file(&dst);
             }
             (out.finish(), kinds)
